@@ -75,6 +75,14 @@ def describe(case, full=False):
 
 class Ctx:
     def __init__(self):
+        src = os.path.join(pbuild.repo(), 'daemon', 'proxyd.c')
+        try:
+            hooked = 'ZVBI_VERIF' in open(src, errors='replace').read()
+        except OSError:
+            hooked = False
+        if not hooked:
+            log('[error] %s lacks the ZVBI_VERIF hook (apply /verif/proxy/hook.patch): zvbid cannot run without hardware' % src)
+            raise SystemExit(2)
         self.B = pbuild.build()
         self.msgb = pref.Msg(self.B['layout'])
         self.ref = None
@@ -254,6 +262,12 @@ def stage_msgfuzz(ctx, pid, out, ev, seed, iters, skip, known):
 
 def run(chk, pid, tier, seed, out, ev, known):
     ctx = Ctx()
+    for old in glob.glob(os.path.join(pbuild.BUILD, 'proxy-run-*')):
+        try:
+            if time.time() - os.path.getmtime(old) > 3600:
+                shutil.rmtree(old, ignore_errors=True)
+        except OSError:
+            pass
     conf = tier_conf(chk, pid, tier)
     skip = skip_flags()
     t_start = time.time()
